@@ -4,7 +4,7 @@ import Hive.Gen.C19_SafeMath
 namespace Hive.GoInt
 open Hive.Gen.SafeMath IntTy
 
-theorem safeLeftShift_exact (T : IntTy) (hb : 0 < T.bits) (v : Int) (n : Nat) (hv : T.InRange v) :
+theorem safeLeftShift_exact (T : IntTy) (hb : 0 < T.bits) (v : Int) (n : Nat) (_hv : T.InRange v) :
     SafeLeftShift T v (n : Int) = exact T (v * 2 ^ n) := by
   have hM := T.modulus_pos
   have hP := two_pow_pos n
